@@ -105,6 +105,21 @@ CHECKS = {
         technique="information-flow / non-interference lint + CFG path search from each mode test",
         design="4/C07",
     ),
+    "C08": dict(
+        category="other",
+        text="Y1 warn-mode variant of the failure-site ledger (strict-only raises removed; allowed aborts = the two command-code "
+             "lookups and the union no-member branch; overruns travel to their owner); Y2 owner-catch on the specialised traces: "
+             "every decode made while an owner's region is live is inside its SizeConstraintExceededError handler, whose "
+             "ownership test names exactly the regions that owner created and whose body warns and returns (TPM2B byte payload "
+             "exempt, justified from L); Y3 recovery Nones are tested before iteration; Y4 recovery bookkeeping (padding charged "
+             "to enclosing regions, nested regions retired, check-before-charge, skip amounts); Y5 completion of the processor on "
+             "a byte send handled by the pump. These are necessary structural conditions; the byte tiling itself is not decided.",
+        note="trusted: CPython ast; L (E1). Eight open findings (K2, K6a, K6b x4 owners, K6c, K8) are genuine defects recorded in "
+             "known_findings.json with witnesses in findings/repro_warn_mode.py; they need a redesign of the region bookkeeping / "
+             "pump exit logic and are not repaired.",
+        technique="exception-escape ledger (warn-mode variant) + owner-catch rule over abstract traces + structural recovery-bookkeeping rules",
+        design="4/C08",
+    ),
     "C09": dict(
         category="other",
         text="S1/S2 def-use on the abstract trace of the stream walker: the response decode receives `.commandCode` of the "
@@ -258,7 +273,7 @@ CHECKS = {
 }
 
 NA_DEFAULT = "check not built yet (framework under construction)"
-NA = {}
+NA = {}  # every property is claimed
 
 
 def main():
